@@ -513,4 +513,70 @@ example : roundDown 500 (500 + 1 / 2 ^ 44) (500 + 1 / 2 ^ 45) = 500 := by decide
 example : ratioExceeds 501 1 ⟨500, 1⟩ = true ∧ (0 < 1) ∧ (0 < (⟨500, 1⟩ : Ratio).den) := by decide
 end examples
 
+/-! ## The translated source function itself (end to end)
+
+`Props/C11_Src.lean` proves the `validate_zipfile` re-translated from `zip_bomb.py` on every run equal
+to the hand model; composed with `accept_iff`, exactness is a statement about the function **as the
+source has it now**: it returns exactly for the central directories that are not bombs, and whatever it
+raises is `ExtractionZipBombError`, raised for a bomb. -/
+section src
+open S2T.Py S2T.Gen.PyZipBomb S2T.C11.Src
+
+
+theorem floatSafe_defaults : FloatSafe S2T.Gen.ZipBomb.defaultLimits := by
+  have h : (2:Nat) ^ 33 ≤ 2 ^ 1023 := Nat.pow_le_pow_right (by decide) (by decide)
+  constructor <;> (simp only [fmax]; exact Nat.lt_of_lt_of_le (by decide) h)
+
+/-- **C11 at the source level (exactness).** -/
+theorem C11_src_exact (lim : Limits) (src : Option Py.Str) (infos : List ZipInfo) (hs : FloatSafe lim) :
+    (validate_zipfile ⟨pure infos⟩ lim src = .ok () ↔ ¬ Bomb lim (infos.map entryOf)) ∧
+    (∀ e, validate_zipfile ⟨pure infos⟩ lim src = .error e →
+        e.cls = "ExtractionZipBombError" ∧ Bomb lim (infos.map entryOf)) := by
+  rw [validate_zipfile_eq lim src infos hs]
+  have ha := accept_iff lim (infos.map entryOf)
+  cases hv : validate lim (some (infos.map entryOf)) with
+  | ok u =>
+    cases u
+    rw [hv] at ha
+    refine ⟨by simpa using ha, ?_⟩
+    intro e he; simp [lift, pure, Except.pure] at he
+  | error r =>
+    rw [hv] at ha
+    have hb : Bomb lim (infos.map entryOf) := by
+      have : ¬ ¬ Bomb lim (infos.map entryOf) := fun h => by simpa using ha.mpr h
+      exact Classical.not_not.mp this
+    refine ⟨?_, ?_⟩
+    · simp [lift, throw, throwThe, MonadExceptOf.throw, hb]
+    · intro e he
+      simp only [lift_error, Except.error.injEq] at he
+      subst he
+      exact ⟨rfl, hb⟩
+
+/-- **C11 on the current source, documented defaults.** -/
+theorem C11_src_default_exact (src : Option Py.Str) (infos : List ZipInfo) :
+    validate_zipfile ⟨pure infos⟩ S2T.Gen.ZipBomb.defaultLimits src = .ok ()
+      ↔ ¬ Bomb S2T.Gen.ZipBomb.defaultLimits (infos.map entryOf) :=
+  (C11_src_exact _ src infos floatSafe_defaults).1
+
+/-- **C11 at the source level (directories, names, order of attributes do not matter).** Two central
+    directories whose file entries have the same sizes get the same verdict from the translated function,
+    whatever the entry names are. -/
+theorem C11_src_names_ignored (lim : Limits) (src src' : Option Py.Str) (infos infos' : List ZipInfo)
+    (hs : FloatSafe lim) (h : infos.map entryOf = infos'.map entryOf) :
+    validate_zipfile ⟨pure infos⟩ lim src = validate_zipfile ⟨pure infos'⟩ lim src' := by
+  rw [validate_zipfile_eq lim src infos hs, validate_zipfile_eq lim src' infos' hs, h]
+
+/-! ### Non-vacuity of the source-level statements -/
+example : validate_zipfile ⟨pure [⟨"a".toList, 10, 1, false⟩, ⟨"d/".toList, 0, 0, true⟩]⟩
+    S2T.Gen.ZipBomb.defaultLimits none = .ok () := by decide +kernel
+example : Bomb S2T.Gen.ZipBomb.defaultLimits ([⟨"a".toList, 600, 1, false⟩].map entryOf) := by
+  have h := C11_src_default_exact none [⟨"a".toList, 600, 1, false⟩]
+  have hne : validate_zipfile ⟨pure [⟨"a".toList, 600, 1, false⟩]⟩ S2T.Gen.ZipBomb.defaultLimits none ≠ .ok () := by
+    decide +kernel
+  exact Classical.not_not.mp (fun hnb => hne (h.mpr hnb))
+example : ([⟨"a".toList, 600, 1, false⟩] : List ZipInfo).map entryOf
+    = [⟨"other-name".toList, 600, 1, false⟩].map entryOf := rfl
+
+end src
+
 end S2T.C11
